@@ -483,7 +483,8 @@ func runC06(c *fw.Ctx) {
 	// implementation might not (a saved context, a flag). Every state is therefore expanded a
 	// second time, from a representative that reaches it through its deepest predecessors (up to 8
 	// steps back, then that state's shortest representative): a state that is reached by closing a
-	// parenthesis is entered with everything that was opened and left before still in the text.
+	// parenthesis is entered with everything that was opened and left before still in the text
+	// (quick tier: states with at most 3 open directives).
 	var pass2States, pass2Transitions int64
 	if !c.Expired() {
 		rep2 := func(id int) []int {
@@ -517,8 +518,11 @@ func runC06(c *fw.Ctx) {
 					if len(base) == len(allNodes[id]) {
 						continue // no richer history than the first representative
 					}
-					atomic.AddInt64(&pass2States, 1)
 					baseState := refRun(al, base)
+					if c.Quick() && len(baseState.stack) > 3 {
+						continue // quick tier: states with at most 3 open directives (thorough: all)
+					}
+					atomic.AddInt64(&pass2States, 1)
 					for t := range al {
 						if al[t].name == "(" && (baseState.pending == nil || baseState.pending.explicit) {
 							continue
